@@ -1,6 +1,7 @@
 import OutrankModel.Gen.Src.C16
+import OutrankModel.Model.C16
 import OutrankModel.Lemmas.Bridge
-/-! Source tie of C16: the field-count validity test of the streaming loop as the source states it now. -/
+/-! Source tie of C16: the field-count validity test, the format dispatch and the namespace-line tests as the source states them now. -/
 namespace Src.C16
 open Gen.Src.C16
 
@@ -8,5 +9,40 @@ open Gen.Src.C16
 theorem valid_line_model (w hw : Nat) : validLine (w : Int) (hw : Int) = decide (w = hw) := by
   unfold validLine; bridge
 
+/-- format dispatch: the three branches are selected by exactly these `--data_source` values and are mutually exclusive -/
+theorem dispatch_model (src : String) :
+    isTsv src = decide (src = "ob-raw-dump") ∧ isVw src = decide (src = "ob-vw") ∧
+    isCsv src = (decide (src = "ob-csv") || decide (src = "csv-raw")) := by
+  unfold isTsv isVw isCsv; exact ⟨rfl, rfl, rfl⟩
+
+theorem dispatch_exclusive (src : String) : ¬ (isTsv src = true ∧ isVw src = true) ∧ ¬ (isTsv src = true ∧ isCsv src = true) ∧
+    ¬ (isVw src = true ∧ isCsv src = true) := by
+  unfold isTsv isVw isCsv
+  refine ⟨?_, ?_, ?_⟩ <;> intro h <;> simp at h <;> grind
+
+theorem containsChar (c : Char) : ∀ (s : List Char), Py.containsL s [c] = s.contains c
+  | [] => by simp [Py.containsL]
+  | x :: xs => by
+    simp only [Py.containsL, List.isPrefixOf, containsChar c xs]
+    by_cases h : c = x
+    · subst h; simp
+    · simp [h]
+
+/-- a two-field namespace line is taken as `id,feature` iff the id has no `_` – the model's `nsStep` test `!a.contains '_'` -/
+theorem two_field_line_model (n : Nat) (id : String) :
+    twoFieldLine (n : Int) id = (decide (n = 2) && !id.toList.contains '_') := by
+  unfold twoFieldLine Py.contains
+  have : Py.containsL id.toList "_".toList = id.toList.contains '_' := containsChar '_' _
+  rw [this]
+  by_cases h : n = 2
+  · subst h; simp
+  · have : ¬ ((n : Int) = 2) := by omega
+    simp [h, this]
+
+theorem is_float_model (t : String) : isFloat t = decide (t = "f32") := by unfold isFloat; rfl
+/-- VW tokens: empty strings produced by repeated spaces are dropped – the model's `rest.filter (· != [])` -/
+theorem keep_token_model (x : String) : keepToken x = decide (x ≠ "") := by unfold keepToken; rfl
+
 example : validLine 3 3 = true ∧ validLine 4 3 = false ∧ validLine 2 3 = false := by decide
+example : twoFieldLine 2 "12" = true ∧ twoFieldLine 2 "1_2" = false ∧ twoFieldLine 3 "12" = false := by decide
 end Src.C16
